@@ -52,4 +52,47 @@ theorem gen_split_line_eq (line : Str) (off : Nat) :
   by_cases h1 : line.isEmpty <;> by_cases h2 : PyStr.truthy (strip line) <;>
     simp [PyStr.truthy, PyStr.slice, PyStr.removeChar, h1, h2] <;> simp_all [PyStr.truthy]
 
+theorem pyInt_error {t : Str} {e : Err} (h : pyInt t = .error e) : e = .valueError := by
+  simp only [pyInt] at h
+  split at h
+  · cases h; rfl
+  · cases h
+
+/-- `_get_header_info` (parse/phylip.py, as translated) is the header logic of the model `phylipParser`: the model is the
+translated function followed by the (hand-modelled) dispatch on its result — `not num_seqs or not seq_len` -> no records,
+`interleaved` chooses the branch — for every header line and every body -/
+theorem gen_get_header_info_eq (line : Str) (rest : List Str) :
+    phylipParser (line :: rest) =
+      match Gen.C06Str.get_header_info line with
+      | .error e => .error e
+      | .ok (ns, sl, il) =>
+        if ns = 0 || sl = 0 then .ok []
+        else if !il then phySeqGo none rest
+        else phyIntFinish sl (phyIntGo ns 0 10 [] rest) := by
+  unfold phylipParser Gen.C06Str.get_header_info
+  cases hs : splitWs line with
+  | nil => simp [hs, PyStr.mapInt]
+  | cons a t1 =>
+    cases t1 with
+    | nil =>
+      cases ha : pyInt a with
+      | error e => simp [hs, PyStr.mapInt, ha, pyInt_error ha]
+      | ok v => simp [hs, PyStr.mapInt, ha, Except.map]
+    | cons b more =>
+      cases ha : pyInt a with
+      | error e => simp [hs, PyStr.mapInt, ha, pyInt_error ha, bind, Except.bind]
+      | ok v =>
+        cases hb : pyInt b with
+        | error e => simp [hs, PyStr.mapInt, ha, hb, pyInt_error hb, bind, Except.bind, Except.map]
+        | ok w =>
+          cases more with
+          | nil => simp [hs, PyStr.mapInt, ha, hb, bind, Except.bind, Except.map]
+          | cons m ms => simp [hs, PyStr.mapInt, ha, hb, bind, Except.bind, Except.map]
+
+-- non-vacuity: sequential and interleaved headers, a header with one field, a non-integer field
+example : Gen.C06Str.get_header_info "3 12".toList = .ok (3, 12, false) := by decide
+example : Gen.C06Str.get_header_info " 3  12 I".toList = .ok (3, 12, true) := by decide
+example : Gen.C06Str.get_header_info "3".toList = .error .valueError := by decide
+example : Gen.C06Str.get_header_info "3 x".toList = .error .valueError := by decide
+
 end CogentModel.C06
